@@ -323,3 +323,19 @@ def eval_with_slice(fnode, expr, env, stubs, enum_name="Order"):
             continue
         it.stmt(st, env)
     return it.ev(expr, env)
+
+
+def run_fallback(ctx, fallback, reason, what):
+    """Run an older shape rule after the interpretation it was replaced by could not be carried out.  The shape
+    rules are kept because they still decide the pinned tree's idioms; on other idioms they are known to misread
+    behaviour-preserving code, so a *failing* shape rule in this situation is not reported as a violation but as an
+    analysis that could not be completed (exit 2) - neither engine understood the code."""
+    from ..model import AnalysisError
+
+    n0 = len(ctx.obs)
+    ctx.note(f"{what} not interpretable ({reason}); shape rule used instead")
+    fallback(ctx)
+    failed = [o for o in ctx.obs[n0:] if not o.ok]
+    if failed:
+        del ctx.obs[n0:]
+        raise AnalysisError(f"{what} could not be interpreted ({reason}) and the shape rule does not recognise the code either ({failed[0].rule}@{failed[0].construct})")
